@@ -16,9 +16,10 @@
      in the Rust; here the maxima are [option N], None = empty table, and the guard then
      yields 0 safe blocks (bits_remaining.saturating_sub(MAX) / MAX = 0);
    - `offset |= most_significant` is written `off + ms`: off < 2^k and ms is 0 or 2^k;
-   - the walk over the table tree has fuel 33 like Codec.tsearch (strides of up to 6 bits,
-     code lengths <= 40 need at most 7); running out of fuel is Panic (never happens for
-     a validated table);
+   - the walk over the table tree has fuel 33 like Codec.tsearch (strides of up to
+     [stride] bits, code lengths <= 40 need at most 7 of them when the stride is 6, and 33
+     suffice from a stride of 2 on: CodecL.stride_reach); running out of fuel is Panic (never
+     happens for a validated table);
    - a reader position beyond total_bits when the fast path hands back to the checked
      code ([ustrip]) is Panic: `bits_remaining()` computes total_bits - bit_idx, which
      overflows (debug: panic; release: wraps to a huge count and the next unchecked read
@@ -91,7 +92,7 @@ Definition uget1 (u : bits) : res (bool * bits) :=
 
 (* ---------------- unchecked_search_with_reader ---------------- *)
 (* Walk of the table tree: at a node with candidate set [cands] reached after [dpt] bits,
-   the stride t = min 6 (longest candidate code - dpt) is always read in full
+   the stride t = min stride (longest candidate code - dpt) is always read in full
    (unchecked_read_prefix_table_idx); at a leaf the reader is rewound to the leaf's depth
    (`rewind(read_depth - depth)`: usize underflow = Panic).  [u0] is the stream at the
    start of the code; the current position is [skipn dpt u0].  Same candidate filter as
@@ -105,7 +106,7 @@ Fixpoint usearch (fuel : nat) (cands : list prefix) (dpt : nat) (u0 : bits)
     match fuel with
     | O => Panic
     | S f =>
-      let t := Nat.min 6 (max_code_len cands - dpt) in
+      let t := Nat.min stride (max_code_len cands - dpt) in
       let cur := skipn dpt u0 in
       if Nat.ltb (length cur) t then Panic else
       let idxbits := firstn t cur in
